@@ -93,7 +93,7 @@ def compute_upper_bound_ks_agg(
     if indices is not None:
         orig_val = orig_val[indices]
 
-    orig_val *= scale
+    orig_val = orig_val * scale
     m = max(orig_val)
 
     return m + (1.0 / rho) * log(sum(np_exp(rho * (orig_val + 1.0 - m)))) - 1.0
@@ -125,8 +125,8 @@ def compute_total_ks_agg_jac(
         orig_jac = orig_jac[indices, :]
         orig_val = orig_val[indices]
 
-    orig_jac *= scale
-    orig_val *= scale
+    orig_jac = orig_jac * scale
+    orig_val = orig_val * scale
 
     m = max(orig_val)
     div = np_sum(np_exp(rho * (orig_val + 1.0 - m)))
@@ -158,7 +158,7 @@ def compute_partial_ks_agg_jac(
     if indices is not None:
         orig_val = orig_val[indices]
 
-    orig_val *= scale
+    orig_val = orig_val * scale
 
     m = max(orig_val)
     div = np_sum(np_exp(rho * (orig_val + 1.0 - m)))
@@ -193,7 +193,7 @@ def compute_iks_agg(
     if indices is not None:
         orig_val = orig_val[indices]
 
-    orig_val *= scale
+    orig_val = orig_val * scale
 
     m = max(orig_val)
     iks = sum(orig_val * np_exp(rho * (orig_val + 1.0 - m)))
@@ -228,8 +228,8 @@ def compute_total_iks_agg_jac(
         orig_jac = orig_jac[indices, :]
         orig_val = orig_val[indices]
 
-    orig_jac *= scale
-    orig_val *= scale
+    orig_jac = orig_jac * scale
+    orig_val = orig_val * scale
 
     m = max(orig_val)
 
@@ -278,7 +278,7 @@ def compute_partial_iks_agg_jac(
     if indices is not None:
         orig_val = orig_val[indices]
 
-    orig_val *= scale
+    orig_val = orig_val * scale
 
     m = max(orig_val)
 
@@ -412,7 +412,7 @@ def compute_max_agg(
     """
     if indices is not None:
         orig_val = orig_val[indices]
-    orig_val *= scale
+    orig_val = orig_val * scale
     return array([np_max(orig_val)])
 
 
@@ -437,8 +437,8 @@ def compute_max_agg_jac(
     if indices is not None:
         orig_jac = orig_jac[indices, :]
         orig_val = orig_val[indices]
-    orig_jac *= scale
-    orig_val *= scale
+    orig_jac = orig_jac * scale
+    orig_val = orig_val * scale
     i_max = np_argmax(orig_val)
 
     return atleast_2d(orig_jac)[i_max, :]
